@@ -198,6 +198,12 @@ def _sigstr_domain(tier, seed):
                 sig = bytes([fill]) * total
                 yield dict(signature=sig, order=n, rs_strings=(sig[:total // 2], sig[total // 2:]))
                 yield dict(signature=sig, order=n, rs_strings=[sig[:l], sig[l:]])
+        # halves of wrong but compensating lengths (the total is still 2 l)
+        for a in sorted(set([0, 1, l - 1, l + 1, 2 * l - 1, 2 * l])):
+            if 0 <= a <= 2 * l and a != l:
+                for fill in (0x00, 0x01):
+                    sig = bytes([fill]) * (2 * l)
+                    yield dict(signature=sig, order=n, rs_strings=(sig[:a], sig[a:]))
         yield dict(signature=b"", order=n, rs_strings=())
         yield dict(signature=b"", order=n, rs_strings=(b"\x00" * l,))
         yield dict(signature=b"", order=n, rs_strings=(b"\x00" * l, b"\x00" * l, b"\x00" * l))
